@@ -63,15 +63,42 @@ Definition shaped_labels (shapes : list (list bool)) (it : item) : labels :=
                   else ((-3)%Z, 0%Z, 0%Z)))
       (enumerate_from 0 (it_nodes it)).
 
-Fixpoint run_steps (lab : item -> labels) (t : labels) (st : kstate) (ls : list (list N)) : list sexp :=
+(** [state.unmount(); state.mount(&parent, anchor)] (a list that is hidden and shown again, e.g. under an
+    Either that switches back and forth with a kept state): every item and the marker leave the parent, then
+    every item, in order, and the marker are mounted before the anchor.  COMPARED with the implementation, not
+    under the theorems (the invariant [st_wf] after a re-mount is not proved). *)
+Definition remount (st : kstate) (anchor : option node) : kstate * list event :=
+  let w0 := {| w_children := []; w_dom := unmount st;
+               w_log := map (fun it => EvUnmount (it_key it) (it_gen it)) (ks_items st);
+               w_next := ks_next st; w_gen := ks_gen st; w_panic := false |} in
+  let w1 := fold_left (step_mount anchor) (ks_items st) w0 in
+  ({| ks_bld := ks_bld st; ks_dom := insert_before (ks_marker st) anchor (w_dom w1); ks_marker := ks_marker st;
+      ks_keys := ks_keys st; ks_items := ks_items st; ks_next := ks_next st; ks_gen := ks_gen st |}, w_log w1).
+
+(** a step of a history: a key list, or [(-1)] = unmount + mount again.  [keep] says which events the harness
+    logs (rows that are plain elements cannot log their own mount / unmount).  After the last step the list is
+    unmounted: the last entry shows what is left in the parent. *)
+Fixpoint run_steps (lab : item -> labels) (keep : event -> bool) (anchor : option node) (t : labels) (st : kstate)
+                   (ls : list (list Z)) : list sexp :=
   match ls with
-  | [] => []
+  | [] =>
+      [Lst [s_children t (ks_dom st) (unmount st);
+            Lst (map s_event (filter keep (map (fun it => EvUnmount (it_key it) (it_gen it)) (ks_items st))))]]
+  | [(-1)%Z] :: rest =>
+      let '(st', log) := remount st anchor in
+      Lst [s_children t (ks_dom st) (ks_dom st'); Lst (map s_event (filter keep log))]
+      :: run_steps lab keep anchor t st' rest
   | l :: rest =>
-      let '(st', log, p) := rebuild st l in
+      let '(st', log, p) := rebuild st (map Z.to_N l) in
       if p then [Lst [Num (-9)]] else
       let t' := t ++ flat_map lab (ks_items st') in
-      Lst [s_children t' (ks_dom st) (ks_dom st'); Lst (map s_event log)] :: run_steps lab t' st' rest
+      Lst [s_children t' (ks_dom st) (ks_dom st'); Lst (map s_event (filter keep log))]
+      :: run_steps lab keep anchor t' st' rest
   end.
+
+Definition keep_all (e : event) : bool := true.
+Definition keep_calls (e : event) : bool :=
+  match e with EvMount _ _ | EvUnmount _ _ => false | _ => true end.
 
 (* ------------------------------------------------------------ leptos <For> / <ForEnumerate> *)
 (** modes 11 / 12 (harness/dom/src/c11for.rs): the list is the keyed list of Keyed.v with
@@ -158,13 +185,19 @@ Definition run_C11 (c : sexp) : sexp :=
      mode 11 (the count a row shows is the label of its item in the store, incremented once per entry),
      whatever path the writes take (the 5th component of the case) *)
   if Z.eqb (as_Z (nth_s 0 c)) 14 then run_for false c else
-  let shaped := Z.eqb (as_Z (nth_s 0 c)) 20 in
+  let mode := as_Z (nth_s 0 c) in
+  let shaped := Z.eqb mode 20 in
+  (* modes 4 / 5: rows are plain one-node elements (keyed(..).add_any_attr(..) with String keys; a list rendered
+     to HTML, hydrated and then updated): only the view_fn and set_index calls are logged *)
+  let plain := Z.eqb mode 4 || Z.eqb mode 5 in
   let shapes := map (shape_nodes 40) (as_list (nth_s 4 c)) in
-  let bld := if shaped then var_bld (fun k => length (shape_of shapes k)) else fixed_bld (as_nat (nth_s 0 c)) in
+  let bld := if shaped then var_bld (fun k => length (shape_of shapes k))
+             else if plain then fixed_bld 1 else fixed_bld (as_nat (nth_s 0 c)) in
   let lab := if shaped then shaped_labels shapes else item_labels in
+  let keep := if plain then keep_calls else keep_all in
   let npre := as_nat (nth_s 1 c) in
   let npost := as_nat (nth_s 2 c) in
-  let ls := map (fun l => map as_N (as_list l)) (as_list (nth_s 3 c)) in
+  let ls := map as_Zs (as_list (nth_s 3 c)) in
   let pre := map N.of_nat (seq 0 npre) in
   let post := map N.of_nat (seq npre npost) in
   let t0 := map (fun i => (N.of_nat i, ((-1)%Z, 0%Z, Z.of_nat i))) (seq 0 npre)
@@ -172,8 +205,8 @@ Definition run_C11 (c : sexp) : sexp :=
   match ls with
   | [] => Lst []
   | l0 :: rest =>
-      let '(st, log) := build_mount bld (pre ++ post) (hd_error post) (N.of_nat (npre + npost)) l0 in
+      let '(st, log) := build_mount bld (pre ++ post) (hd_error post) (N.of_nat (npre + npost)) (map Z.to_N l0) in
       let t := t0 ++ [(ks_marker st, ((-3)%Z, 0%Z, 0%Z))] ++ flat_map lab (ks_items st) in
-      Lst (Lst [s_children t (pre ++ post) (ks_dom st); Lst (map s_event log)]
-           :: run_steps lab t st rest)
+      Lst (Lst [s_children t (pre ++ post) (ks_dom st); Lst (map s_event (filter keep log))]
+           :: run_steps lab keep (hd_error post) t st rest)
   end.
